@@ -42,6 +42,24 @@ def tool_worker(case):
             elif r.rc != 0 or out != ref.pieces[0]:
                 viol = ("c14:tool:unzck-dict:%s:%s" % (comp, "fails-on-valid-file" if r.rc != 0 else "wrong-bytes"),
                         "unzck --dict exit %s, output %s bytes, dictionary is %d bytes; stderr=%r" % (r.rc, None if out is None else len(out), len(ref.pieces[0]), r.stderr[-200:]))
+        if not viol and p.chunks[0]["len"] > 0:
+            # the same request on a detached header (header + dictionary, the form unzck --header produces): supported, must give the same bytes
+            det = zckref.MAGIC_HDR + data[5:p.header_len + p.chunks[0]["comp_len"]]
+            open(os.path.join(cdir, "det.zck"), "wb").write(det)
+            r = core.run_proc([case["unzck"], "--dict", "det.zck"], cdir)
+            stats["tool_runs"] += 1
+            stats["detached_header_dict_requests"] = 1
+            cs = core.crash_signatures(r, where="tool:unzck--dict")
+            out = None
+            try:
+                out = open(os.path.join(cdir, "det.zdict"), "rb").read()
+            except FileNotFoundError:
+                pass
+            if cs:
+                viol = (cs[0], "unzck --dict (detached header) crashed: %s" % cs)
+            elif r.rc != 0 or out != ref.pieces[0]:
+                viol = ("c14:tool:unzck-dict:detached-header:%s:%s" % (comp, "fails" if r.rc != 0 else "wrong-bytes"),
+                        "unzck --dict on the detached header exit %s, output %s bytes, dictionary is %d bytes; stderr=%r" % (r.rc, None if out is None else len(out), len(ref.pieces[0]), r.stderr[-200:]))
         if not viol:
             os.makedirs(os.path.join(cdir, "zd"), exist_ok=True)
             r = core.run_proc([case["gen_zdict"], "--dir", "zd", "arch.zck"], cdir)
